@@ -85,11 +85,11 @@ theorem step_swap (s : Sys) (e : Ev) : step s.swap e.swap = (step s e).map Sys.s
     cases x
     · simp only [Ev.swap, step, Sys.swap, Bool.not_false]
       by_cases h : s.pendB = []
-      · cases hc : s.b.commit adds fu fa <;> simp [h, hc, Sys.swap]
+      · cases s.b.commit adds fu fa <;> simp [h, Sys.swap]
       · simp [h]
     · simp only [Ev.swap, step, Sys.swap, Bool.not_true]
       by_cases h : s.pendA = []
-      · cases hc : s.a.commit adds fu fa <;> simp [h, hc, Sys.swap]
+      · cases s.a.commit adds fu fa <;> simp [h, Sys.swap]
       · simp [h]
   | release x =>
     cases x
